@@ -972,6 +972,58 @@ async fn run_ops(ops: Option<&Value>, shared: &SharedState, env: &Env, snaps: &M
             "helper_exec" => helper_exec(op.get("name").and_then(|x| x.as_str()).unwrap_or("")).await?,
             "kill_actor" => kill_actor(shared, op.get("actor").and_then(|x| x.as_str()).unwrap_or("")).await?,
             "clear_summary" => shared.get_agent_status_shared_state().clear_all_summary().await.map_err(|e| e.to_string())?,
+            "summary_burst" => {
+                // conservation leg for the failed-authorization summary: `threads` OS threads add, at the same instant
+                // (std barrier), one failed summary each for a key nobody has seen yet; repeated for `keys` fresh keys.
+                // Recorded as a snapshot {label, burst: {adds, keys, threads}, summary}.  Whatever the scheduling, every
+                // add that returned Ok must be counted.
+                let threads = op.get("threads").and_then(|x| x.as_u64()).unwrap_or(8).max(1) as usize;
+                let keys = op.get("keys").and_then(|x| x.as_u64()).unwrap_or(200) as usize;
+                let label = op.get("label").and_then(|x| x.as_str()).unwrap_or("burst").to_string();
+                let st = shared.get_agent_status_shared_state();
+                let handle = tokio::runtime::Handle::current();
+                let lbl = label.clone();
+                let ok_adds = tokio::task::spawn_blocking(move || {
+                    let barrier = std::sync::Barrier::new(threads);
+                    let oks = std::sync::atomic::AtomicUsize::new(0);
+                    std::thread::scope(|sc| {
+                        for _ in 0..threads {
+                            sc.spawn(|| {
+                                for k in 0..keys {
+                                    let summary = gpa::proxy::proxy_summary::ProxySummary {
+                                        id: k as u128,
+                                        method: "GET".to_string(),
+                                        url: "/burst".to_string(),
+                                        clientIp: "127.0.0.1".to_string(),
+                                        clientPort: 1,
+                                        ip: "169.254.169.254".to_string(),
+                                        port: 80,
+                                        userId: 0,
+                                        userName: format!("burst-{}-{}", lbl, k),
+                                        userGroups: vec!["g".to_string()],
+                                        processFullPath: std::path::PathBuf::from("/burst/exe"),
+                                        processCmdLine: "exe --burst".to_string(),
+                                        runAsElevated: false,
+                                        responseStatus: "403 Forbidden".to_string(),
+                                        elapsedTime: 0,
+                                        errorDetails: String::new(),
+                                    };
+                                    barrier.wait();
+                                    if handle.block_on(st.add_one_failed_connection_summary(summary)).is_ok() {
+                                        oks.fetch_add(1, Ordering::SeqCst);
+                                    }
+                                }
+                            });
+                        }
+                    });
+                    oks.load(Ordering::SeqCst)
+                })
+                .await
+                .map_err(|e| format!("summary_burst: {}", e))?;
+                let s = json!({"label": label, "burst": {"adds": ok_adds, "keys": keys, "threads": threads},
+                               "audit_map": snapshot_json(), "summary": summaries(shared).await, "status_json": status_json().await});
+                snaps.lock().unwrap().push(s);
+            }
             "barrier" => {
                 // rendezvous of concurrent client connections: continue when `n` participants have arrived at `name`
                 let name = op.get("name").and_then(|x| x.as_str()).unwrap_or("barrier").to_string();
